@@ -471,9 +471,10 @@ def _await_pattern(blocks, call_bb):
 def _async_shell(shell):
     """(coroutine def, [shell param index per upvar]) when `shell` is the plain shell of an `async fn`."""
     live = [b for b in shell.j["blocks"] if not b["cleanup"]]
-    if len(live) != 1 or live[0]["term"]["k"] != "return":
+    # one block building the coroutine, possibly followed by drops of the moved-from arguments, then `return`
+    if not live or len(live) > 12 or any(b["term"]["k"] not in ("return", "drop", "goto") for b in live) or not any(b["term"]["k"] == "return" for b in live):
         return None
-    sts = [st for st in live[0]["stmts"] if st["k"] == "assign"]
+    sts = [st for b in live for st in b["stmts"] if st["k"] == "assign"]
     if len(sts) != 1 or sts[0]["lhs"]["l"] != 0 or sts[0]["rv"].get("agg") != "coroutine":
         return None
     params = []
@@ -737,4 +738,36 @@ def apply(facts, anchors, pinned):
                 anchors.adopt(h.def_)
                 if cor is not None:
                     anchors.adopt(cor.def_)
+    # spawn adoption: a private async fn of the anchor's module whose future is handed straight to a spawn call in an anchor body
+    # (`tokio::spawn(send_heartbeats(..))`) runs as a task of that anchor: its coroutine body is looked at "under" the anchor.
+    SPAWNS = ("tokio::task::spawn::spawn", "tokio::task::spawn", "tokio::spawn", "tokio::task::local::spawn_local")
+    sites = {}
+    for b in facts.all_bodies():
+        live = b.live_blocks()
+        for c in b.calls():
+            if c.bb in live and c.local:
+                sites.setdefault(c.fn, []).append((b, c))
+    for fn, ss in sites.items():
+        h = facts.body(fn)
+        if h is None or fn in pinned or fn in _names_used_by_rules() or not (h.vis or "").startswith("Restricted"):
+            continue
+        sh = _async_shell(h)
+        cor = facts.body(sh[0]) if sh else None
+        if cor is None or any(b.def_ not in anchors for (b, c) in ss):
+            continue
+        ok = True
+        for (b, c) in ss:
+            if c.dest["p"]:
+                ok = False
+                break
+            users = [u for u in b.calls() if u.bb in b.live_blocks() and any((a.get("move") or a.get("copy") or {}).get("l") == c.dest["l"] for a in u.args)]
+            if not users or not all(u.fn.startswith(SPAWNS) or u.fn.endswith("::spawn") for u in users):
+                ok = False
+        if ok:
+            for (b, c) in ss:
+                done.append((b.def_, h.def_))
+                done.append((b.def_, cor.def_))
+            if hasattr(anchors, "adopt"):
+                anchors.adopt(cor.def_)
+            facts.inlined = done
     return done
